@@ -2,6 +2,7 @@ package sym
 
 import (
 	"encoding/json"
+	"math/big"
 	"fmt"
 	"go/types"
 	"sort"
@@ -74,21 +75,45 @@ func (p *Path) jsonAtom(j *JV, max int) StrV {
 	b0 := smt.Select(at.Arr, smt.Int(0))
 	switch j.Kind {
 	case JStr:
-		p.assert(smt.And(smt.Ge(at.Len, smt.Int(2)), smt.Eq(b0, smt.Int('"'))))
+		p.assert(smt.And(smt.Ge(at.Len, smt.Add(j.S.LenTerm(), smt.Int(2))), smt.Eq(b0, smt.Int('"'))))
 	case JNum:
 		p.assert(smt.And(smt.Ge(at.Len, smt.Int(1)), smt.Or(smt.Eq(b0, smt.Int('-')), smt.And(smt.Ge(b0, smt.Int('0')), smt.Le(b0, smt.Int('9'))))))
+		if j.IsInt {
+			p.assert(smt.Eq(at.Len, decimalLen(j.I)))
+		}
 	case JBool:
-		p.assert(smt.And(smt.Ge(at.Len, smt.Int(4)), smt.Le(at.Len, smt.Int(5)), smt.Or(smt.Eq(b0, smt.Int('t')), smt.Eq(b0, smt.Int('f')))))
+		p.assert(smt.Ite(j.B, smt.And(smt.Eq(at.Len, smt.Int(4)), smt.Eq(b0, smt.Int('t'))), smt.And(smt.Eq(at.Len, smt.Int(5)), smt.Eq(b0, smt.Int('f')))))
 	case JSym:
-		isNull := smt.Eq(j.K, smt.Int(0))
+		// the length of the text is tied to the payload so that length tests in
+		// the code under test are decided as they are natively (vrt.JSONAny)
+		isK := func(k int) *smt.Term { return smt.Eq(j.K, smt.Int(int64(k))) }
 		nullBytes := smt.And(smt.Eq(at.Len, smt.Int(4)), smt.Eq(b0, smt.Int('n')), smt.Eq(smt.Select(at.Arr, smt.Int(1)), smt.Int('u')),
 			smt.Eq(smt.Select(at.Arr, smt.Int(2)), smt.Int('l')), smt.Eq(smt.Select(at.Arr, smt.Int(3)), smt.Int('l')))
 		p.assert(smt.Ge(at.Len, smt.Int(1)))
-		p.assert(smt.Implies(isNull, nullBytes))
-		p.assert(smt.Implies(smt.Not(isNull), smt.Not(smt.Eq(b0, smt.Int('n')))))
+		p.assert(smt.Implies(isK(0), nullBytes))
+		p.assert(smt.Implies(smt.Not(isK(0)), smt.Not(smt.Eq(b0, smt.Int('n')))))
+		p.assert(smt.Implies(isK(1), smt.Ite(j.SymB, smt.And(smt.Eq(at.Len, smt.Int(4)), smt.Eq(b0, smt.Int('t'))), smt.And(smt.Eq(at.Len, smt.Int(5)), smt.Eq(b0, smt.Int('f'))))))
+		p.assert(smt.Implies(isK(2), smt.Eq(at.Len, decimalLen(j.SymI))))
+		// fraction: vrt.JSONAny renders (int mod 1000) followed by ".5"
+		p.assert(smt.Implies(isK(3), smt.And(smt.Ge(at.Len, smt.Int(3)), smt.Le(at.Len, smt.Int(6)))))
+		p.assert(smt.Implies(isK(4), smt.And(smt.Eq(at.Len, smt.Add(j.SymS.LenTerm(), smt.Int(2))), smt.Eq(b0, smt.Int('"')))))
+		p.assert(smt.Implies(isK(5), smt.And(smt.Eq(at.Len, smt.Int(2)), smt.Eq(b0, smt.Int('[')))))
+		p.assert(smt.Implies(isK(6), smt.And(smt.Eq(at.Len, smt.Int(2)), smt.Eq(b0, smt.Int('{')))))
 	}
 	p.memo[key] = s
 	return s
+}
+
+// decimalLen: number of bytes of the decimal text of an int64 term.
+func decimalLen(i *smt.Term) *smt.Term {
+	abs := smt.Ite(smt.Lt(i, smt.Int(0)), smt.Neg(i), i)
+	n := smt.Ite(smt.Lt(i, smt.Int(0)), smt.Int(2), smt.Int(1))
+	pow := big.NewInt(10)
+	for d := 1; d <= 19; d++ {
+		n = smt.Add(n, smt.Ite(smt.Ge(abs, smt.BigInt(pow)), smt.Int(1), smt.Int(0)))
+		pow = new(big.Int).Mul(pow, big.NewInt(10))
+	}
+	return n
 }
 
 func jsonQuoteConst(s string) string {
